@@ -22,6 +22,7 @@ type c12Case struct {
 	// Route: "" the library call; "cli-stdout" what `acv validate P D` prints; "cli-file-fresh" / "cli-file-longer" /
 	// "cli-file-shorter" what `acv validate P D OUT` leaves in OUT when OUT was absent / held more / held less
 	Route string `json:"route,omitempty"`
+	Entry int    `json:"entry,omitempty"` // library entry point producing the report (see validateVia)
 }
 
 func genC12(t *rapid.T) c12Case {
@@ -79,6 +80,7 @@ func genC12(t *rapid.T) c12Case {
 		c.Route = pick(t, []string{"cli-stdout", "cli-file-fresh", "cli-file-longer", "cli-file-shorter"}, "route")
 	}
 	genScale(t, gr, 16)
+	c.Entry = rapid.SampledFrom([]int{0, 0, 1, 2, 3}).Draw(t, "entry")
 	// mass failure: a validation that every one of some thousand filler nodes fails - a report of a megabyte or more
 	if rapid.IntRange(0, 11).Draw(t, "massFailure") == 0 {
 		gr.Bulk, gr.BulkBlank = rapid.SampledFrom([]int{600, 1100, 1500}).Draw(t, "massNodes"), false
@@ -231,7 +233,7 @@ func checkResult(obj map[string]any, where string, top bool, shapes map[string]b
 
 func decideC12(c c12Case) ev.Verdict {
 	data := c.Maps.Attach(c.Graph).JSONLD(c.Opts)
-	res := validateFixed(c.ProfileText, data)
+	res := validateVia(c.Entry, c.ProfileText, data)
 	if res.failed() {
 		return ev.Violation("c12-call-failed:"+classifyErr(res), "validation failed: %s\n%s", trunc(res.errString(), 400), c.ProfileText)
 	}
